@@ -8,16 +8,18 @@ import (
 )
 
 type Node struct {
-	Atom string
-	List []*Node
+	Atom   string
+	List   []*Node
 	IsList bool
 }
 
-func A(s string) *Node            { return &Node{Atom: s} }
-func L(xs ...*Node) *Node         { return &Node{List: xs, IsList: true} }
-func T(tag string, xs ...*Node) *Node { return &Node{List: append([]*Node{A(tag)}, xs...), IsList: true} }
-func S(s string) *Node            { return A("#" + hex.EncodeToString([]byte(s))) }
-func I(n int64) *Node             { return A(fmt.Sprintf("%d", n)) }
+func A(s string) *Node    { return &Node{Atom: s} }
+func L(xs ...*Node) *Node { return &Node{List: xs, IsList: true} }
+func T(tag string, xs ...*Node) *Node {
+	return &Node{List: append([]*Node{A(tag)}, xs...), IsList: true}
+}
+func S(s string) *Node { return A("#" + hex.EncodeToString([]byte(s))) }
+func I(n int64) *Node  { return A(fmt.Sprintf("%d", n)) }
 func B(b bool) *Node {
 	if b {
 		return A("1")
